@@ -855,6 +855,9 @@ func (e *connectWireError) MarshalJSON() ([]byte, error) {
 		}
 		wire.Details = details
 	}
+	// A message that isn't valid UTF-8 can't be serialized; an error that loses
+	// a few bytes of its text is better than one that loses its code.
+	wire.Message = strings.ToValidUTF8(wire.Message, "\uFFFD")
 	return (&protoJSONCodec{}).Marshal(wire)
 }
 
